@@ -114,7 +114,7 @@ func init() {
 	register(&Prop{
 		ID: "C19", Title: "Containers enclose their children and siblings do not overlap",
 		Patterns:    []string{"./d2layouts/...", "./d2graph", "./lib/geo"},
-		Explanation: "Decides two necessary conditions only: (1) axis consistency of the container-fitting, spacing and positioning arithmetic of the layout packages (d2layouts and its engines, d2graph's layout helpers, lib/geo): no sum, difference or comparison mixes a horizontal with a vertical quantity and no value of one axis is stored into a place of the other, apart from ten reviewed cases; (2) every running bound in those packages (min/max accumulators used to fit containers and compute extents) is accumulated monotonically in one direction and never overwritten inside its loop; (3) mirrored arms — an if/else on a boolean switch whose two short arms are copies of each other up to identifiers (rows/columns, X/Y, Width/Height) is a consistent one-to-one renaming, and a ceiling division (a + d - 1) / e divides by the d it added; (4) in a function with a direction flag (a bool parameter that selects an X arm or a Y arm), every displacement along a single axis is under a test of that flag.",
+		Explanation: "Decides two necessary conditions only: (1) axis consistency of the container-fitting, spacing and positioning arithmetic of the layout packages (d2layouts and its engines, d2graph's layout helpers, lib/geo): no sum, difference or comparison mixes a horizontal with a vertical quantity and no value of one axis is stored into a place of the other, apart from ten reviewed cases; (2) every running bound in those packages (min/max accumulators used to fit containers and compute extents) is accumulated monotonically in one direction and never overwritten inside its loop; (3) mirrored arms — an if/else on a boolean switch whose two short arms are copies of each other up to identifiers (rows/columns, X/Y, Width/Height) is a consistent one-to-one renaming, and a ceiling division (a + d - 1) / e divides by the d it added; (4) in a function with a direction flag (a bool parameter that selects an X arm or a Y arm), every displacement along a single axis is under a test of that flag; (5) a call passing a displacement (dx, dy) whose two components have the same shape takes both from the same source (margin.Left, margin.Top — not another object's).",
 		NotCovered:  geomNotCovered,
 		Technique:   "static analysis: name-typed axis inference over arithmetic (E15), monotone-accumulator check, sibling-arm comparison",
 		Run: func(c *core.Check) {
@@ -125,6 +125,14 @@ func init() {
 			runMirrorClause(c, "C19.mirror", pk, 20)
 			runCeilClause(c, "C19.ceil-division", pk)
 			runDirectionClause(c, "C19.direction", pk)
+			{
+				c.Rule("C19.paired-args", "the two components of one displacement come from the same source")
+				issues, n := pairedArgIssues(c.P, pk, true)
+				for _, m := range issues {
+					c.Fail("C19.paired-args", m.Key, m.Pos, "the call passes a displacement (dx, dy) whose two components have the same shape but different sources ("+m.Text+"): one component was taken from another object's box or margin")
+				}
+				c.Decide(n >= 2, "C19.paired-args", "pair:inventory", token.NoPos, fmt.Sprintf("%d calls passing a (dx, dy) pair of same-shaped components, all from one source", n), "no displacement calls found")
+			}
 			runBoundsClause(c, "C19.bounds", pk, 15)
 		},
 	})
